@@ -258,7 +258,9 @@ impl<'a> Packet<'a> {
         private_key: Option<&[u8; 32]>,
         replay_protection: Option<&mut ReplayProtection>,
     ) -> Result<(u64, Self), NetcodeError> {
-        if buffer.len() < 2 + NETCODE_MAC_BYTES {
+        // The smallest packet is a prefix byte and the encryption tag:
+        // a packet without data with a sequence that is encoded with zero bytes
+        if buffer.len() < 1 + NETCODE_MAC_BYTES {
             return Err(NetcodeError::PacketTooSmall);
         }
 
